@@ -29,6 +29,15 @@ START = [
     ("orphans", ["addcomponent 0 2", "addvariable 2 6", "addvariable 2 7", "addcomponent 1 3", "addvariable 3 8",
                  "addcomponent 2 4", "addunits 1 11", "setunits_p 8 11", "addequivalence 6 8", "addequivalence 7 8",
                  "release 3", "release 1", "release 4"]),
+    # every residue a history can leave behind, at once:
+    #   6 holds an EXPIRED equivalence entry (its partner 9 was destroyed, no equivalence edit since) besides the live 6~7;
+    #   component 3 and units 11 outlived their model 1 (3 still holds variable 7, reset 13 and component 4 was moved out);
+    #   variable 7's units 11 have lost their model; reset 12 refers to variable 8 whose component 5 was destroyed;
+    #   model 0 had its units list emptied by removeAllUnits; component 4 was moved from 3 to 2
+    ("residues", ["addcomponent 0 2", "addcomponent 1 3", "addvariable 2 6", "addvariable 3 7", "addequivalence 6 7",
+                  "addequivalence 6 9", "release 9", "addunits 1 11", "setunits_p 7 11", "addreset 3 13", "setvariable 13 7",
+                  "addcomponent 3 4", "addcomponent 2 4", "addvariable 5 8", "addreset 2 12", "setvariable 12 8", "release 5",
+                  "addunits 0 10", "removeallunits 0", "release 1"]),
 ]
 
 
@@ -144,6 +153,59 @@ def ops_links(V, U, R):
     return out
 
 
+def ops_queries(E, C, Cs, V, Ms, U, R, idx):
+    """the queries of the object model that take an entity, an index or a name (incl. null, one past the end, unknown name)"""
+    out = []
+    for e in E:
+        for n in NAMES_C:
+            for d in (True, False):
+                out.append("containscomponent_n %d %s %s" % (e, S(n), b(d)))
+                out.append("component_n %d %s %s" % (e, S(n), b(d)))
+        for c in C:
+            for d in (True, False):
+                out.append("containscomponent_p %d %s %s" % (e, nul(c), b(d)))
+        for i in idx:
+            out.append("component_i %d %d" % (e, i))
+    for c in Cs:
+        for n in NAMES_V:
+            out.append("hasvariable_n %d %s" % (c, S(n)))
+            out.append("variable_n %d %s" % (c, S(n)))
+        for v in V:
+            out.append("hasvariable_p %d %s" % (c, nul(v)))
+        for r in R:
+            out.append("hasreset %d %s" % (c, nul(r)))
+        for i in idx:
+            out.append("variable_i %d %d" % (c, i))
+            out.append("reset_i %d %d" % (c, i))
+    for m in Ms:
+        for n in NAMES_U:
+            out.append("hasunits_n %d %s" % (m, S(n)))
+            out.append("units_n %d %s" % (m, S(n)))
+        for u in U:
+            out.append("hasunits_p %d %s" % (m, nul(u)))
+        for i in idx[:2]:
+            out.append("units_i %d %d" % (m, i))
+    for v in V:
+        if v is None:
+            continue
+        for w in V:
+            out.append("hasequivalentvariable %d %s false" % (v, nul(w)))
+            out.append("hasequivalentvariable %d %s true" % (v, nul(w)))
+        for i in idx[:2]:
+            out.append("equivalentvariable %d %d" % (v, i))
+        out.append("getunits %d" % v)
+    for x in (2, 4, 6, 8, 10, 12):
+        out.append("parent %d" % x)
+        out.append("hasparent %d" % x)
+        for y in (0, 2, 3, None):
+            out.append("hasancestor %d %s" % (x, nul(y)))
+    for r in R:
+        if r is not None:
+            out.append("getvariable %d" % r)
+            out.append("testvariable %d" % r)
+    return out
+
+
 def full_ops():
     """every op form with arguments over a representative part of the universe (incl. null, one past the end, unknown name)"""
     o = []
@@ -154,6 +216,7 @@ def full_ops():
     o += ops_equiv([6, 7, 8, None])
     o += ops_links([6, 7, 8], [10, 11, None], [12, 13])
     o += ["release %d" % s for s in (0, 1, 2, 3, 4, 6, 8, 10, 12)]
+    o += ops_queries([0, 2, 3], [2, 3, 4, None], [2, 3], [6, 7, 8, None], [0, 1], [10, 11, None], [12, 13, None], [0, 1, 2])
     return o
 
 
@@ -177,7 +240,7 @@ def reduced_ops():
         "addequivalence 6 7", "addequivalence 7 6", "addequivalence 6 6", "addequivalence_ids 6 null %s %s" % (S("m"), S("c")),
         "removeequivalence 6 7", "removeallequivalences 6",
         "setunits_p 6 10", "setunits_p 7 11", "setvariable 12 6",
-        "release 0", "release 2", "release 3", "release 6", "release 10",
+        "release 0", "release 2", "release 3", "release 6", "release 7", "release 8", "release 10",
     ]
 
 
@@ -198,7 +261,7 @@ def reduced_ops4():
 def op_slots(o):
     """the slots an op names (receiver and entity arguments; indices are not slots)"""
     t = o.split()
-    if t[0].endswith("_i") or t[0] == "takereset":
+    if t[0].endswith("_i") or t[0] in ("takereset", "equivalentvariable"):
         return [int(t[1])] + [int(x) for x in t[3:] if x.isdigit()]
     return [int(x) for x in t[1:] if x.isdigit()]
 
@@ -262,7 +325,7 @@ def random_sequence(rng, name, n):
         return rng.choice(c) if c else None
 
     while len(ops) < n:
-        fam = rng.choices(["comp", "var", "reset", "units", "equiv", "link", "release"], [30, 22, 10, 14, 12, 8, 4])[0]
+        fam = rng.choices(["comp", "var", "reset", "units", "equiv", "link", "release", "query"], [30, 22, 10, 14, 12, 8, 4, 14])[0]
         i = rng.choice([0, 0, 0, 1, 1, 2, 3])
         d = b(rng.random() < 0.5)
         if fam == "comp":
@@ -334,6 +397,27 @@ def random_sequence(rng, name, n):
                 if r is None:
                     continue
                 ops.append("%s %d %s" % ("setvariable" if k == "var" else "settestvariable", r, nul(pick(VARS, 0.2))))
+        elif fam == "query":
+            k = rng.choice(["cc_n", "cc_p", "c_i", "c_n", "hv_n", "hv_p", "v_i", "v_n", "hr", "r_i", "hu_n", "hu_p", "u_i", "u_n",
+                            "heq", "heq", "heq", "eqv", "par", "hpar", "hanc", "gu", "gv", "tv"])
+            e, c, m = recv(E), recv(COMPS), recv(MODELS)
+            v, r = recv(VARS), recv(RESETS)
+            x = recv(COMPS + VARS + UNITS + RESETS)
+            if None in (e, c, m, v, r, x):
+                continue
+            ops.append({
+                "cc_n": "containscomponent_n %d %s %s" % (e, S(rng.choice(NAMES_C)), d),
+                "cc_p": "containscomponent_p %d %s %s" % (e, nul(pick(COMPS, 0.2)), d),
+                "c_i": "component_i %d %d" % (e, i), "c_n": "component_n %d %s %s" % (e, S(rng.choice(NAMES_C)), d),
+                "hv_n": "hasvariable_n %d %s" % (c, S(rng.choice(NAMES_V))), "hv_p": "hasvariable_p %d %s" % (c, nul(pick(VARS, 0.2))),
+                "v_i": "variable_i %d %d" % (c, i), "v_n": "variable_n %d %s" % (c, S(rng.choice(NAMES_V))),
+                "hr": "hasreset %d %s" % (c, nul(pick(RESETS, 0.2))), "r_i": "reset_i %d %d" % (c, i),
+                "hu_n": "hasunits_n %d %s" % (m, S(rng.choice(NAMES_U))), "hu_p": "hasunits_p %d %s" % (m, nul(pick(UNITS, 0.2))),
+                "u_i": "units_i %d %d" % (m, i), "u_n": "units_n %d %s" % (m, S(rng.choice(NAMES_U))),
+                "heq": "hasequivalentvariable %d %s %s" % (v, nul(pick(VARS, 0.3)), d), "eqv": "equivalentvariable %d %d" % (v, i),
+                "par": "parent %d" % x, "hpar": "hasparent %d" % x,
+                "hanc": "hasancestor %d %s" % (x, nul(pick(E, 0.25))),
+                "gu": "getunits %d" % v, "gv": "getvariable %d" % r, "tv": "testvariable %d" % r}[k])
         else:
             c = sorted(live)
             if len(c) <= 4:
@@ -342,3 +426,9 @@ def random_sequence(rng, name, n):
             live.discard(h)
             ops.append("release %d" % h)
     return "@%s;" % name + ";".join(ops)
+
+
+QUERY_CMDS = ("containscomponent_n", "containscomponent_p", "component_i", "component_n", "hasvariable_n", "hasvariable_p",
+              "variable_i", "variable_n", "hasreset", "reset_i", "hasunits_n", "hasunits_p", "units_i", "units_n",
+              "hasequivalentvariable", "equivalentvariable", "parent", "hasparent", "hasancestor", "getunits", "getvariable",
+              "testvariable")
